@@ -156,11 +156,21 @@ def r2_construction(prog, rep: Report, im):
     found = False
     from ..util import expand_all
     flow = Flow(f.node)
+    _FLIP = {ast.Eq: ast.NotEq, ast.NotEq: ast.Eq, ast.Lt: ast.GtE, ast.GtE: ast.Lt, ast.Gt: ast.LtE, ast.LtE: ast.Gt}
     for n in walk_own(f.node):
-        if isinstance(n, ast.If) and isinstance(n.test, ast.Compare) and len(n.test.ops) == 1:
+        if not isinstance(n, ast.If):
+            continue
+        test0 = expand_all(n.test, flow, keep=(ss_var,) if ss_var else ()) if isinstance(n.test, (ast.Name, ast.UnaryOp)) else n.test
+        if isinstance(test0, ast.UnaryOp) and isinstance(test0.op, ast.Not) and isinstance(test0.operand, ast.Compare) \
+                and len(test0.operand.ops) == 1 and type(test0.operand.ops[0]) in _FLIP:
+            # `all_disjoint = len(span_set) == len(mapping); if not all_disjoint:` - two lengths, so the negation is the flipped operator
+            c0 = test0.operand
+            test0 = ast.copy_location(ast.Compare(left=c0.left, ops=[_FLIP[type(c0.ops[0])]()], comparators=c0.comparators), n.test)
+        if isinstance(test0, ast.Compare) and len(test0.ops) == 1:
+            n_test = test0
             # named intermediate values (`expected = len(mapping)`) read as their definitions
-            left_s = src(expand_all(n.test.left, flow, keep=(ss_var,) if ss_var else ()))
-            right_s = src(expand_all(n.test.comparators[0], flow, keep=(ss_var,) if ss_var else ()))
+            left_s = src(expand_all(n_test.left, flow, keep=(ss_var,) if ss_var else ()))
+            right_s = src(expand_all(n_test.comparators[0], flow, keep=(ss_var,) if ss_var else ()))
             sides = {left_s, right_s}
 
             def _counts_intervals(txt: str) -> bool:
@@ -170,14 +180,15 @@ def r2_construction(prog, rep: Report, im):
                     inner = txt[4:-1]
                     return any(same(inner, arr) for arr in (starts_arr[0], ends_arr[0], vals_arr[0] if vals_arr else starts_arr[0]))
                 return False
-            if f"len({ss_var})" in sides and any(_counts_intervals(x) for x in sides):
+            ss_len = f"len({ss_var})" if ss_var is not None else f"len({src(expand_all(c, flow))})"     # len(SpanSet(...)) written in place
+            if ss_len in sides and any(_counts_intervals(x) for x in sides):
                 found = True
-                op = n.test.ops[0]
+                op = n_test.ops[0]
                 exc = _raises(n.body)
                 ok = isinstance(op, (ast.NotEq, ast.Lt, ast.Gt)) and exc == "KeyError"
-                if isinstance(op, ast.Lt) and left_s != f"len({ss_var})":
+                if isinstance(op, ast.Lt) and left_s != ss_len:
                     ok = False
-                if isinstance(op, ast.Gt) and left_s == f"len({ss_var})":
+                if isinstance(op, ast.Gt) and left_s == ss_len:
                     ok = False
                 rep.check("C16.R2", f, "disjointness:length-test", ok,
                           f"`{src(n.test)}` raises KeyError when spans were merged",
@@ -198,42 +209,51 @@ def _early_exits(prog, rep: Report, f: Func, mapping: str, loop: ast.For):
     0, 1, 2 and 3 intervals (its guards read as formulas over len(mapping)); taking it with >= 1 interval skips the start <= end test
     (and, with >= 2, the disjointness test)"""
     from .cachefam import _eval_small
-    rets = [r for r in walk_own(f.node) if isinstance(r, ast.Return)]
-    early = []
-    for r in rets:
-        # position: inside / after the validity loop?
-        anc, inside = r, False
-        while anc is not None and anc is not f.node:
-            if anc is loop:
-                inside = True
-            anc = getattr(anc, "_parent", None)
-        if inside:
-            continue
-        top = r
-        while getattr(top, "_parent", None) is not None and top._parent is not f.node:
-            top = top._parent
-        if top in f.node.body and loop in f.node.body and f.node.body.index(top) > f.node.body.index(loop):
-            continue                      # after the loop: every interval went through the validity test
-        early.append(r)
+    # every way out of __init__ (a `return`, or the end of the body) with the tests passed on the way and whether the validity loop
+    # was executed on that way; the arms of an if/else are followed separately (a fast path may be written as a guard clause with a
+    # `return` or as the first arm of an if/else that holds the rest of the constructor in its else)
+    exits = []          # (guards, passed the loop, line, undecidable construct or None)
+
+    def contains(st, what) -> bool:
+        return any(x is what for x in ast.walk(st))
+
+    def follow(stmts, guards, passed, cont):
+        for i, st in enumerate(stmts):
+            if st is loop or (not isinstance(st, ast.If) and contains(st, loop)):
+                passed = True
+                continue
+            if isinstance(st, ast.Return):
+                exits.append((guards, passed, st.lineno, None))
+                return
+            if isinstance(st, ast.Raise):
+                return
+            if isinstance(st, ast.If):
+                rest = stmts[i + 1:]
+                follow(st.body, guards + [(st.test, True)], passed, [rest] + cont)
+                follow(st.orelse, guards + [(st.test, False)], passed, [rest] + cont)
+                return
+            if any(isinstance(x, ast.Return) for x in ast.walk(st)) and not isinstance(st, (ast.FunctionDef, ast.AsyncFunctionDef, ast.ClassDef)):
+                for x in ast.walk(st):
+                    if isinstance(x, ast.Return):
+                        exits.append((guards, passed, x.lineno, type(st).__name__))
+        if cont:
+            follow(cont[0], guards, passed, cont[1:])
+        else:
+            exits.append((guards, passed, None, None))
+    follow(list(f.node.body), [], False, [])
+    early = [e for e in exits if not e[1]]
     if not early:
         rep.ok("C16.R2", f, "validated-exits", "no exit of __init__ ahead of the validity loop")
         return
-    for r in early:
-        guards, undecidable = [], None
-        child, anc = r, getattr(r, "_parent", None)
-        while anc is not None and anc is not f.node:
-            if isinstance(anc, ast.If):
-                guards.append((anc.test, child in anc.body))
-            elif not isinstance(anc, ast.If):
-                undecidable = type(anc).__name__
-            child, anc = anc, getattr(anc, "_parent", None)
-        if undecidable or not guards:
-            rep.unrec("C16.R2", f, "validated-exits", f"`return` at line {r.lineno} ahead of the validity loop "
-                      f"({'inside a ' + undecidable if undecidable else 'unconditional'})", line=r.lineno)
+    for guards0, _p, line0, undec0 in early:
+        where = f"the `return` at line {line0}" if line0 is not None else "the end of an arm that does not hold the validity loop"
+        guards = [(t, pol) for t, pol in guards0]
+        if undec0 or not guards:
+            rep.unrec("C16.R2", f, "validated-exits", f"{where} is reached ahead of the validity loop "
+                      f"({'inside a ' + undec0 if undec0 else 'unconditional'})", line=line0)
             return
         taken, unknown = [], False
         for n in (0, 1, 2, 3):
-            env = {f"len({mapping})": n, mapping: None}
             vals = []
             for t, pol in guards:
                 t2 = _LenSubst(mapping, n).visit(ast.parse(src(t), mode="eval").body)
@@ -248,14 +268,14 @@ def _early_exits(prog, rep: Report, f: Func, mapping: str, loop: ast.For):
         bad = [n for n in taken if n >= 1]
         if bad:
             n = bad[0]
-            rep.viol("C16.R2", f, "validated-exits", f"a map of {n} interval(s) is constructed through the `return` at line {r.lineno} "
+            rep.viol("C16.R2", f, "validated-exits", f"a map of {n} interval(s) is constructed through {where} "
                      f"(guard `{' and '.join(('' if pol else 'not ') + src(t) for t, pol in guards)}`) without "
                      + ("the start <= end test" if n == 1 else "the validity and disjointness tests"),
-                     scenario="ImmutIntervalMap({(3, 2): 'x'}) constructs instead of raising KeyError", line=r.lineno)
+                     scenario="ImmutIntervalMap({(3, 2): 'x'}) constructs instead of raising KeyError", line=line0)
             return
         if unknown:
-            rep.unrec("C16.R2", f, "validated-exits", f"cannot decide for which numbers of intervals the `return` at line {r.lineno} "
-                      f"is taken (guards {[src(t) for t, _ in guards]})", line=r.lineno)
+            rep.unrec("C16.R2", f, "validated-exits", f"cannot decide for which numbers of intervals {where} "
+                      f"is taken (guards {[src(t) for t, _ in guards]})", line=line0)
             return
     rep.ok("C16.R2", f, "validated-exits", f"{len(early)} early exit(s), taken only by the empty map")
 
